@@ -726,12 +726,18 @@ func (w *World) applyEvmTx(h int64, idx int, p *TxPlan, r *abci.ResponseDeliverT
 		if ref.Err != nil {
 			why = ref.Err.Error()
 		}
-		w.violate("evm.outcome", pC17, h, "tx %d: node reports success, reference EVM fails (%s)", idx, why)
+		v := w.violate("evm.outcome", pC17, h, "tx %d: node reports success, reference EVM fails (%s)", idx, why)
+		if to != nil && m.Inner[*to] && tx.Type == trxTransfer {
+			v.Shape = "inner-created-contract-plain-transfer"
+		}
 		w.Fatal = true
 		return new(big.Int)
 	}
 	if uint64(r.GasUsed) != ref.GasUsed {
-		w.violate("evm.gasused", []string{"C17", "C16"}, h, "tx %d: GasUsed %d, reference %d", idx, r.GasUsed, ref.GasUsed)
+		v := w.violate("evm.gasused", []string{"C17", "C16"}, h, "tx %d: GasUsed %d, reference %d", idx, r.GasUsed, ref.GasUsed)
+		if to != nil && m.Inner[*to] && tx.Type == trxTransfer {
+			v.Shape = "inner-created-contract-plain-transfer"
+		}
 	}
 	if uint64(r.GasUsed) > tx.Gas {
 		w.violate("evm.gas-above-limit", pC16, h, "tx %d: GasUsed %d above the limit %d", idx, r.GasUsed, tx.Gas)
@@ -774,6 +780,9 @@ func (w *World) noteEvmAccounts(ref *EvmResult) {
 	for i, a := range ref.Created {
 		m.Known[Addr(a)] = true
 		if !(ref.IsCreate && i == 0) && len(m.W.GetCode(a)) > 0 {
+			if !m.Inner[Addr(a)] {
+				m.InnerList = append(m.InnerList, Addr(a))
+			}
 			m.Inner[Addr(a)] = true
 			w.Probes.Hit("evm.inner-create")
 		}
